@@ -1205,7 +1205,8 @@ impl World {
         // C24: an incompressible payload that cannot fit below the granted capacity must be refused
         let mut must_refuse = false;
         if let (Some(cap), Some(p), Some(pay)) = (self.model.capacity, &payload, &spec.pay) {
-            if pay.kind == PK::Bin && chunk_free(p) {
+            let plain_text = matches!(pay.kind, PK::Text | PK::LongText) && p.len() >= 400;
+            if (pay.kind == PK::Bin && chunk_free(p)) || plain_text {
                 let mem = self.mem.as_mut().unwrap();
                 let mut end = 4096 + 65536u64;
                 for id in 0..mem.frame_count() as u64 {
@@ -1215,8 +1216,12 @@ impl World {
                         }
                     }
                 }
-                // random bytes do not compress: the stored size is at least the payload size
-                must_refuse = end + p.len() as u64 > cap + 64;
+                // random bytes do not compress: the stored size is at least the payload size.
+                // Text made of words drawn at random from a 30-word vocabulary (plus a unique
+                // token) carries more than half a bit per character, so whatever the encoding and
+                // whether it is stored whole or as chunk frames it needs more than len/40 bytes.
+                let need = if plain_text { p.len() as u64 / 40 } else { p.len() as u64 };
+                must_refuse = end + need > cap + 64;
             }
         }
         self.must_refuse = must_refuse;
